@@ -21,6 +21,8 @@ type SrvConf struct {
 	Schemes     []string `json:"schemes"`
 	Full        bool     `json:"full"`                    // real Server from ServerBuilder instead of a bare ServerChannel
 	Buf         int      `json:"buf"`                     // channel buffer size
+	DeafInProc  bool     `json:"deaf_inproc,omitempty"`   // in-process scripted clients never read what the server sends them
+	IPQueue     int      `json:"ip_queue,omitempty"`      // in-process connections: 0 = a queue of 4 envelopes per direction, k > 0 = a queue of k-1 (so 1 is no queue at all)
 	AuthOut     []int    `json:"auth_out"`                // outcome of the k-th authenticate call: 0 member, 1 unknown, 2 round trip, 3 error, 4 authority, 5 empty role
 	RegOut      int      `json:"reg_out"`                 // 0 node derived from candidate, 1 error, 2 fixed other node
 	PostEstab   int      `json:"post_estab"`              // bare mode, once the script is over: 0 leave, 1 FinishSession, 2 FailSession
@@ -64,6 +66,7 @@ func GenSrvConf(t *simrt.Tape) SrvConf {
 	}
 	c.RegOut = []int{0, 0, 0, 1, 2}[t.Draw(5)]
 	c.PostEstab = t.Draw(3)
+	c.IPQueue = []int{0, 0, 1, 2}[t.Draw(4)]
 	return c
 }
 
@@ -492,7 +495,13 @@ func (s *SUT) Dial(idx int) (*RawPeer, error) {
 		}
 		return DialRawWS(s.w, s.h, idx, fmt.Sprintf("ws://127.0.0.1:%d", s.Port), nil)
 	default:
-		return DialRawInProc(s.w, s.h, idx, s.InProc, 4)
+		q := 4
+		if s.Conf.IPQueue > 0 {
+			q = s.Conf.IPQueue - 1
+		}
+		rawInProcDeaf = s.Conf.DeafInProc
+		defer func() { rawInProcDeaf = false }()
+		return DialRawInProc(s.w, s.h, idx, s.InProc, q)
 	}
 }
 
